@@ -187,3 +187,22 @@ Theorem C10_monitor_accepts_model : forall cmp cf st ep rq houts changed final,
   monitor cmp cf st ep rq o changed final = None.
 Proof. exact monitor_accepts_model. Qed.
 Print Assumptions C10_monitor_accepts_model.
+
+(* client credentials in the request URI (no authentication method permits that transport): they take no part at the
+   token, revocation and device-authorization endpoints ... *)
+Theorem C10_uri_credentials_ignored_outside_par : forall cmp cf st ep rq u houts,
+  is_par ep = false -> run_endpoint_uri cmp cf st ep rq u houts = run_endpoint cmp cf st ep rq houts.
+Proof. exact uri_credentials_ignored_outside_par. Qed.
+Print Assumptions C10_uri_credentials_ignored_outside_par.
+
+(* ... and at the pushed-authorization endpoint the clause is false of the faithful model and of the code (known finding
+   C10-par-credentials-from-request-uri): body and header entitle the request to act as nobody, the secret stands in
+   the URI, and the request is processed in the name of a confidential client *)
+Theorem C10_par_uri_credentials_refuted :
+  exists cmp cf st rq u houts,
+    spec_who cmp st rq = None /\
+    (exists c, In c st /\ c_public c = false /\
+       ob_res (run_endpoint_uri cmp cf st (EPAR false) rq u houts) = "" /\
+       ob_client (run_endpoint_uri cmp cf st (EPAR false) rq u houts) = c_id c).
+Proof. exact par_uri_credentials_refuted. Qed.
+Print Assumptions C10_par_uri_credentials_refuted.
